@@ -446,6 +446,11 @@ def decide(pid, tier, seed):
     reg = load_registry()
     known = load_known()
     kf = [f for f in known.get("findings", []) if f["property"] == pid]
+    # findings of other properties: C04 reads every obligation of a Check-mode twin, including obligations
+    # that belong to (and are reported under) another property; a listed finding of that other property is
+    # not a mode difference and is left to its own check
+    kf_other = [f for f in known.get("findings", []) if f["property"] != pid]
+    reported_elsewhere = []
     names = harnesses_for(pid, tier, reg, cat)
     log(f"{pid} [{tier}]: {len(names)} Kani harnesses, {WORKERS} workers")
     results = run_pool(names, cat, tier)
@@ -491,6 +496,9 @@ def decide(pid, tier, seed):
                 undecided.append(f"{n}: registered obligation {tag} not produced by this run (harness drift)")
                 continue
             kfm = [f for f in kf if f["obligation"] == tag and (f.get("harness") in (None, n) or re.fullmatch(f.get("harness", ""), n))]
+            if not tag.startswith(pid + "/") and [f for f in kf_other if f["obligation"] == tag and (f.get("harness") in (None, n) or re.fullmatch(f.get("harness", ""), n))]:
+                reported_elsewhere.append(f"{n}: {tag} ({now})")
+                continue
             if now == "FAILURE":
                 if kfm:
                     known_hit.append((kfm[0], n))
@@ -631,6 +639,7 @@ def decide(pid, tier, seed):
             "bounded_note": "bounded obligations are listed with their bound and are NOT counted in obligations/discharged",
             "functions_under_contract": assumptions.functions_under_contract(pid, names, reg, REPO),
             "known_findings_hit": [f["obligation"] for f, _ in known_hit],
+            "obligations_left_to_their_own_property": reported_elsewhere,
             "undecided": undecided,
             "uncovered_clauses": assumptions.UNCOVERED.get(pid, []),
             "assumptions_scan": assumptions.scan(VERIF),
